@@ -369,12 +369,12 @@ prop("C05", v_dn=["dn.lemma.empty_iff", "dn.new", "dn.remove", "dn.push"], vc=["
      explanation="Structural MUSTs as generated VCs over the emission normal forms (S): v3, criticality constants, empty name constraints omitted, no OID twice, CRL v2 with mandatory fields / AKI / CRL number, critical IDP when requested, revokedCertificates absent when empty, CSR version 0 with [0] attributes always and at most one extension request. SAN critical <=> subject empty: the writer passes `entries.is_empty()` (S) and map empty <=> enumeration empty under the invariant (V). Automatic serial: statement sequence digest -> first 20 octets -> clear top bit -> positive INTEGER (S, structural); `non-zero` is not decided (needs a property of SHA-256).",
      assume=["yasna", "crypto", "s_abs", "kcfg"])
 
-prop("C07", vc=["csr"], level="proof",
-     explanation="Refusal rule: guard of Err(UnsupportedInCsr) <=> disjunction of the five unsupported fields, it dominates the signer call, and every supported parameter set is signed (S, all combinations, propositional); each unsupported field alone and none (K, six shapes, signer replaced by a recorder). CertificationRequestInfo shape, extension request present iff any of the four sources is non-empty, its contents, caller attributes verbatim (S). Parse-back round trip is NOT decided (x509-parser).",
+prop("C07", vc=["csr"], level="proof", v_dn=["dn.remove", "dn.push", "dn.iter", "dn.next"],
+     explanation="Refusal rule: guard of Err(UnsupportedInCsr) <=> disjunction of the five unsupported fields, it dominates the signer call, and every supported parameter set is signed (S, all combinations, propositional); each unsupported field alone and none (K, six shapes, signer replaced by a recorder). CertificationRequestInfo shape, extension request present iff any of the four sources is non-empty, its contents, caller attributes verbatim (S); the subject name is enumerated in insertion order (V). Parse-back round trip is NOT decided (x509-parser) except for the IP-octet kernel (K).",
      assume=["yasna", "x509", "s_abs", "kcfg", "hash"])
 
-prop("C08", vc=["crl"], level="proof",
-     explanation="Refusal guards on the encoded instants and on cRLSign (K, all instants / all usage triples, serializer replaced by a recorder; S: guard expressions); TBSCertList and entry shape incl. GeneralizedTime invalidityDate, reason present when given / absent when none, entry extension wrapper never empty, IDP scope tags (S + K bytes for the three scopes); reason code numbers (K). Revocation verdicts of external checkers are NOT decided.",
+prop("C08", vc=["crl"], level="proof", v_dn=["dn.remove", "dn.push", "dn.iter", "dn.next"],
+     explanation="Refusal guards on the encoded instants and on cRLSign (K, all instants / all usage triples, serializer replaced by a recorder; S: guard expressions); TBSCertList and entry shape incl. GeneralizedTime invalidityDate, reason present when given / absent when none, entry extension wrapper never empty, IDP scope tags (S + K bytes for the three scopes); reason code numbers (K); the issuer name is enumerated in insertion order (V). Revocation verdicts of external checkers are NOT decided.",
      assume=["yasna", "crypto", "s_abs", "kcfg", "hash"])
 
 prop("C09", level="proof",
@@ -416,6 +416,7 @@ CALLSITES = {
     ("write_dt_utc_or_generalized", "write_utctime", "*"): ("validated", "K: time.form / time.instant under the year precondition; any year: finding time.any_year_no_panic"),
     ("write_dt_utc_or_generalized", "write_generalized_time", "*"): ("validated", "K: time.form / time.instant under the year precondition; any year: finding time.any_year_no_panic"),
     ("RevokedCertParams::write_der", "write_generalized_time", "dt_to_generalized(unwrap(self.invalidity_date))"): ("raw", "time_year_inv", "invalidity date with a year outside 0..=9999"),
+    ("RevokedCertParams::write_der", "write_generalized_time", "GeneralizedTime::from_datetime(dt_strip_nanos(unwrap(self.invalidity_date)))"): ("raw", "time_year_inv", "invalidity date with a year outside 0..=9999"),
     ("CertificateParams::serialize_der_with_signer", "write_oid", "ObjectIdentifier::from_slice(elem(self.extended_key_usages).oid())"): ("raw", "eku_other_oid", "ExtendedKeyUsagePurpose::Other(vec![1])"),
     ("CertificateParams::write_extended_key_usage", "write_oid", "ObjectIdentifier::from_slice(elem(self.extended_key_usages).oid())"): ("raw", "eku_other_oid", "ExtendedKeyUsagePurpose::Other(vec![1]) in a CSR"),
     ("CertificateParams::serialize_request_with_attributes", "write_oid", "ObjectIdentifier::from_slice(elem(attrs).oid)"): ("raw", "csr_attr_oid", "Attribute { oid: &[1], .. }"),
